@@ -410,6 +410,9 @@ func (w *World) Query(k Kons, s search.SortType, limit int, cont string, around 
 	defer func() {
 		if e := recover(); e != nil {
 			r.Panic = fmt.Sprint(e)
+			srcMu.Lock()
+			r.Source = lastSrc
+			srcMu.Unlock()
 		}
 	}()
 	q := &search.SearchQuery{Constraint: k.Make(), Sort: s, Limit: limit, Continue: cont, Around: around}
